@@ -1,7 +1,8 @@
 """C13 — Quadtree enumeration and tile counts are consistent and match what is visited."""
 PROPERTY = "C13"
 LEVEL = "other"
-CONTRACT_MODULES = ["contracts.specfuns", "contracts.lemmas_desc", "contracts.pyramid", "contracts.parallel", "contracts.walk", "contracts.reducer", "contracts.lemmas_embed", "contracts.generator"]
+CONTRACT_MODULES = ["contracts.specfuns", "contracts.lemmas_desc", "contracts.pyramid", "contracts.parallel", "contracts.walk", "contracts.reducer", "contracts.lemmas_embed", "contracts.generator", "contracts.image", "contracts.merge",
+                    "contracts.pyramidio", "contracts.study", "contracts.multitan", "contracts.toastsample", "contracts.toastgeom", "contracts.toastgen"]
 FUNCTIONS = [
     "toasty.pyramid.pos_parent",
     "toasty.pyramid.pos_children",
@@ -16,6 +17,8 @@ FUNCTIONS = [
     "toasty.pyramid.Pyramid._generator",
     "toasty.pyramid._make_position_filter",
     "toasty.pyramid.Pyramid.subpyramid",
+    "toasty.toast._postfix_corner",
+    "toasty.toast.generate_tiles_filtered",
 ]
 LEMMAS = ["desc_child_step", "desc_child_pair", "desc_siblings_disjoint", "desc_levels", "desc_transitive",
           "desc_root", "pow2_add", "ops_plus_leaves_equals_live",
